@@ -30,15 +30,30 @@ Proof. intros H. apply checked_Some. auto. Qed.
 Lemma checked_out s b v : ~ in_range s b v -> checked s b v = None.
 Proof. intros H. unfold checked. apply in_rangeb_false in H. rewrite H. reflexivity. Qed.
 
+Lemma pow2Z_eq (n : N) : pow2Z n = (2 ^ Z.of_N n)%Z.
+Proof.
+  unfold pow2Z.
+  repeat match goal with
+         | |- match ?x with _ => _ end = _ => destruct x; try reflexivity
+         end.
+Qed.
+
+Lemma int_min_eq s b : int_min s b = if s then (- 2 ^ Z.of_N (b - 1))%Z else 0%Z.
+Proof. unfold int_min. rewrite pow2Z_eq. reflexivity. Qed.
+
+Lemma int_max_eq s b :
+  int_max s b = if s then (2 ^ Z.of_N (b - 1) - 1)%Z else (2 ^ Z.of_N b - 1)%Z.
+Proof. unfold int_max. rewrite !pow2Z_eq. reflexivity. Qed.
+
 Lemma pow2_pos (x : N) : (0 < 2 ^ Z.of_N x)%Z.
 Proof. apply Z.pow_pos_nonneg; lia. Qed.
 
 Lemma int_min_le_0 s b : (int_min s b <= 0)%Z.
-Proof. unfold int_min. destruct s; [|lia]. pose proof (pow2_pos (b - 1)). lia. Qed.
+Proof. rewrite int_min_eq. destruct s; [|lia]. pose proof (pow2_pos (b - 1)). lia. Qed.
 
 Lemma int_max_ge_0 s b : (0 <= int_max s b)%Z.
 Proof.
-  unfold int_max. destruct s; [pose proof (pow2_pos (b - 1)) | pose proof (pow2_pos b)]; lia.
+  rewrite int_max_eq. destruct s; [pose proof (pow2_pos (b - 1)) | pose proof (pow2_pos b)]; lia.
 Qed.
 
 Lemma in_range_0 s b : in_range s b 0.
@@ -56,11 +71,11 @@ Proof.
 Qed.
 
 Lemma in_range_unsigned_iff b v : in_range false b v <-> (0 <= v < 2 ^ Z.of_N b)%Z.
-Proof. unfold in_range, int_min, int_max. lia. Qed.
+Proof. unfold in_range. rewrite int_min_eq, int_max_eq. lia. Qed.
 
 Lemma in_range_signed_iff b v :
   in_range true b v <-> (- 2 ^ Z.of_N (b - 1) <= v < 2 ^ Z.of_N (b - 1))%Z.
-Proof. unfold in_range, int_min, int_max. lia. Qed.
+Proof. unfold in_range. rewrite int_min_eq, int_max_eq. lia. Qed.
 
 Lemma in_range_u64 n : n < 2 ^ 64 -> in_range false 64 (Z.of_N n).
 Proof.
@@ -111,7 +126,7 @@ Qed.
 Lemma sgz_mul pos a radix : (sgz pos a * Z.of_N radix)%Z = sgz pos (a * radix).
 Proof. unfold sgz. destruct pos; rewrite N2Z.inj_mul; ring. Qed.
 
-Lemma sgz_step pos a d :
+Lemma sgz_step (pos : bool) a d :
   (if pos then sgz pos a + Z.of_N d else sgz pos a - Z.of_N d)%Z = sgz pos (a + d).
 Proof. unfold sgz. destruct pos; rewrite N2Z.inj_add; ring. Qed.
 
@@ -152,6 +167,19 @@ Qed.
 Definition leading_minus (s : list N) : bool :=
   match s with c :: _ => c =? 45 | [] => false end.
 
+Lemma checked_loop_0 signed bits radix (pos : bool) ds : 0 < radix ->
+  checked_loop signed bits radix pos ds 0%Z =
+  match digits_value radix ds with
+  | Some n => checked signed bits (if pos then Z.of_N n else - Z.of_N n)%Z
+  | None => None
+  end.
+Proof.
+  intros Hr. unfold digits_value.
+  destruct pos.
+  - exact (checked_loop_spec signed bits radix true Hr ds 0 (in_range_0 _ _)).
+  - exact (checked_loop_spec signed bits radix false Hr ds 0 (in_range_0 _ _)).
+Qed.
+
 Theorem from_str_radix_eq signed bits radix s : 0 < radix ->
   from_str_radix signed bits radix s =
   if leading_minus s && negb signed then None
@@ -161,22 +189,25 @@ Theorem from_str_radix_eq signed bits radix s : 0 < radix ->
        end.
 Proof.
   intros Hr. destruct s as [|c rest]; [reflexivity|].
-  unfold from_str_radix, signed_value, split_sign, leading_minus, digits_value.
+  unfold from_str_radix, signed_value, split_sign, leading_minus.
   destruct (N.eqb_spec c 43) as [->|H43].
   - (* '+' *)
     cbn [N.eqb Pos.eqb orb andb negb].
     destruct rest as [|c' rest']; [reflexivity|]. cbn [is_nil].
-    exact (checked_loop_spec signed bits radix true Hr (c' :: rest') 0 (in_range_0 _ _)).
+    rewrite (checked_loop_0 signed bits radix true _ Hr).
+    destruct (digits_value radix (c' :: rest')); reflexivity.
   - destruct (N.eqb_spec c 45) as [->|H45].
     + (* '-' *)
       cbn [orb andb].
       destruct rest as [|c' rest']; [destruct signed; reflexivity|]. cbn [is_nil].
       destruct signed; cbn [negb andb].
-      * exact (checked_loop_spec true bits radix false Hr (c' :: rest') 0 (in_range_0 _ _)).
+      * rewrite (checked_loop_0 true bits radix false _ Hr).
+        destruct (digits_value radix (c' :: rest')); reflexivity.
       * cbn [checked_loop]. rewrite digit_val_minus. reflexivity.
     + (* no sign *)
       cbn [orb andb is_nil].
-      exact (checked_loop_spec signed bits radix true Hr (c :: rest) 0 (in_range_0 _ _)).
+      rewrite (checked_loop_0 signed bits radix true _ Hr).
+      destruct (digits_value radix (c :: rest)); reflexivity.
 Qed.
 
 Corollary from_str_radix_sound signed bits radix s v : 0 < radix ->
@@ -197,7 +228,7 @@ Proof.
   intros Hr Hv Hin Hs. rewrite (from_str_radix_eq _ _ _ _ Hr), Hv.
   replace (leading_minus s && negb signed) with false.
   - apply checked_in, Hin.
-  - destruct Hs as [-> | ->]; [reflexivity | apply andb_false_r].
+  - destruct Hs as [-> | ->]; [reflexivity | symmetry; apply andb_false_r].
 Qed.
 
 Corollary from_str_radix_overflow signed bits radix s v : 0 < radix ->
@@ -228,7 +259,7 @@ Proof.
     apply digit_val_lt in Ed. intros H. apply IH in H.
     rewrite Nat2N.inj_succ, N.pow_succ_r'.
     eapply N.lt_le_trans; [exact H|].
-    rewrite (N.mul_comm radix), N.mul_assoc.
+    rewrite N.mul_assoc.
     apply N.mul_le_mono_r. nia.
 Qed.
 
@@ -306,7 +337,8 @@ Proof.
   destruct (N.ltb_spec n 10) as [Hlt|Hge].
   - constructor; [unfold is_dec_byte; lia | exact Hacc].
   - apply IH. constructor; [|exact Hacc].
-    pose proof (N.mod_lt n 10 ltac:(lia)). unfold is_dec_byte. lia.
+    pose proof (N.mod_lt n 10 ltac:(lia)) as Hm. unfold is_dec_byte.
+    set (m := n mod 10) in *. clearbody m. lia.
 Qed.
 
 (* the first byte is the leading (non-zero) digit *)
@@ -369,7 +401,8 @@ Theorem from_str_radix_print_u64 signed bits n : n < 2 ^ 64 ->
   from_str_radix signed bits 10 (print_u64 n) = checked signed bits (Z.of_N n).
 Proof.
   intros Hn. destruct (print_u64_signed_value n Hn) as [Hv Hm].
-  rewrite (from_str_radix_eq _ _ _ _ ltac:(lia)), Hv, Hm. reflexivity.
+  assert (Hr : 0 < 10) by lia.
+  rewrite (from_str_radix_eq signed bits 10 _ Hr), Hv, Hm. reflexivity.
 Qed.
 
 (* [U] *)
